@@ -7,8 +7,10 @@ package main
 
 import (
 	"bytes"
+	"encoding/json"
 	"fmt"
 	"os"
+	"os/exec"
 	"path/filepath"
 	"sort"
 	"strings"
@@ -19,7 +21,66 @@ import (
 	specs "tags.cncf.io/container-device-interface/specs-go"
 )
 
-func init() { register("C14", checkC14) }
+func init() {
+	register("C14", checkC14)
+	registerChild("c14fds", childC14Fds)
+}
+
+func openFds() int {
+	es, err := os.ReadDir("/proc/self/fd")
+	must(err)
+	return len(es)
+}
+
+// childC14Fds: in a process of its own (nothing else opens or closes files), per
+// kind of host node: the number of open file descriptors before and after 100
+// injections of a device whose node is resolved from that host node. Injection
+// changes nothing but the OCI spec: it leaves no descriptors behind.
+func childC14Fds(args []string) int {
+	root := args[0]
+	hosts, err := makeHostNodes(filepath.Join(root, "hostdev"))
+	if err != nil {
+		fmt.Println(jsonStr(map[string]any{"error": "mknod: " + err.Error()}))
+		return 0
+	}
+	dir := filepath.Join(root, "specs")
+	must(os.MkdirAll(dir, 0o755))
+	spec := &specs.Spec{Version: "0.6.0", Kind: "fds.org/dev"}
+	for i, h := range hosts {
+		spec.Devices = append(spec.Devices, specs.Device{Name: fmt.Sprintf("d%d", i), ContainerEdits: specs.ContainerEdits{
+			DeviceNodes: []*specs.DeviceNode{{Path: fmt.Sprintf("/dev/in-container-%d", i), HostPath: h.Path}}}})
+	}
+	must(os.WriteFile(filepath.Join(dir, "fds.json"), specBytes(spec, "json"), 0o644))
+	cache, _ := cdi.NewCache(cdi.WithSpecDirs(dir), cdi.WithAutoRefresh(false))
+	inject := func(i int) bool {
+		o := &oci.Spec{Version: "1.0.2", Process: &oci.Process{}, Linux: &oci.Linux{}}
+		_, err := cache.InjectDevices(o, fmt.Sprintf("fds.org/dev=d%d", i))
+		return err == nil
+	}
+	type row struct {
+		Host       string `json:"host_node"`
+		Kind       string `json:"kind"`
+		Succeeds   bool   `json:"injection_succeeds"`
+		Before     int    `json:"open_fds_before"`
+		After      int    `json:"open_fds_after"`
+		Injections int    `json:"injections"`
+	}
+	var rows []row
+	for i := range hosts {
+		inject(i) // (first use: whatever the runtime sets up once)
+		inject(i)
+	}
+	for i, h := range hosts {
+		rw := row{Host: filepath.Base(h.Path), Kind: h.Type, Injections: 100, Before: openFds()}
+		for k := 0; k < rw.Injections; k++ {
+			rw.Succeeds = inject(i)
+		}
+		rw.After = openFds()
+		rows = append(rows, rw)
+	}
+	fmt.Println(jsonStr(map[string]any{"rows": rows}))
+	return 0
+}
 
 // cacheImage is the JSON image of everything reachable through the query API.
 func cacheImage(c *cdi.Cache) string {
@@ -343,6 +404,44 @@ func checkC14(c *Ctx) {
 		}
 		c.Sample(3, map[string]any{"history": history, "host_nodes": real})
 	})
+	// descriptors left behind, per kind of host node (a process of its own)
+	if c.replayCase == "" || strings.HasPrefix(c.replayCase, "fds") {
+		exe, _ := os.Executable()
+		c.RunCases("fds", c.pick(2, 6), 2, func(cs *Case) {
+			root := filepath.Join(c.Scratch, sanitize(cs.Name))
+			must(os.MkdirAll(root, 0o755))
+			defer os.RemoveAll(root)
+			outb, err := exec.Command(exe, "child-c14fds", root).Output()
+			var out struct {
+				Error string `json:"error"`
+				Rows  []struct {
+					Host       string `json:"host_node"`
+					Kind       string `json:"kind"`
+					Succeeds   bool   `json:"injection_succeeds"`
+					Before     int    `json:"open_fds_before"`
+					After      int    `json:"open_fds_after"`
+					Injections int    `json:"injections"`
+				} `json:"rows"`
+			}
+			if err != nil || json.Unmarshal(bytes.TrimSpace(outb), &out) != nil || out.Error != "" || len(out.Rows) == 0 {
+				c.Inconclusive("fds-child")
+				return
+			}
+			for _, rw := range out.Rows {
+				c.Count("injections_under_descriptor_count", rw.Injections)
+				c.Count("host_node_kinds_under_descriptor_count:"+rw.Host, 1)
+				switch d := rw.After - rw.Before; {
+				case d*2 >= rw.Injections:
+					cs.Violation("descriptors-left-open", map[string]string{"host": rw.Host}, fmt.Sprintf("%d injections of a device whose node is resolved from host node %q (type %q, injection succeeds: %v) leave %d more file descriptors open (%d before, %d after)", rw.Injections, rw.Host, rw.Kind, rw.Succeeds, d, rw.Before, rw.After), map[string]any{"rows": out.Rows})
+					return
+				case d != 0:
+					c.Count("descriptor_count_differences_below_threshold", 1)
+				}
+			}
+			c.Sample(1, map[string]any{"descriptor_counts": out.Rows})
+		})
+		c.Floor("injections_under_descriptor_count", 1000)
+	}
 	c.Floor("sequences_2+_host_resolved_ops", 50)
 	c.Floor("host_changes", 50)
 	c.Floor("second_applications_into_the_same_oci_spec", 20)
